@@ -534,7 +534,7 @@ Fixpoint wf_ipld (v : ipld) : bool :=
   | IInt z => ((- 2 ^ 63 <=? z) && (z <? 2 ^ 64))%Z
   | IString s => bytes_ok s
   | IBytes b => bytes_ok b
-  | ILink c => bytes_ok c && cid_valid c
+  | ILink c => bytes_ok (0 :: c) && cid_valid c     (* the byte string under tag 42 is 0x00 ++ cid *)
   | IList l => (N.of_nat (length l) <? 2 ^ 64) && forallb wf_ipld l
   | IMap m =>
     (N.of_nat (length m) <? 2 ^ 64)
